@@ -571,6 +571,9 @@ def shard(arg):
         if case['strip']:
             for ft in ws_features(case['stream']):
                 res.count('expect:strip-inside:' + ft)
+        if not case['strip'] and any(e[0] == 'T' and e[2] for e in case['stream']):
+            # `html_roundtrip_doc_markup_partial` / `xhtml_roundtrip_doc_readxml_markup_partial`
+            res.count('expect:inside-markup-text:%s' % case['method'])
         if 'mixed-namespaces' in features(case['stream']):
             # `html_roundtrip_tree_mixed_partial` / `xhtml_roundtrip_tree_mixed_tokens_partial` (+ the Lean xmlView)
             res.count('expect:inside-mixed-namespaces:%s' % case['method'])
